@@ -15,6 +15,23 @@ TARGETS (harness/translate_all.py)
             variable must be simple statements of ONE block and nothing they read may be reassigned in
             between (Translator.var_chain); the free names they read become the arguments.  Such a tie
             covers the formulas, not the surrounding control flow.
+    'block': a SPAN of statements as a function of the names it reads (Translator.stmt_block): the run of
+            statements, in the deepest common block, that contains the chosen assignments to `vars` (optionally
+            only the `occurrences`-th in source order; inside a loop body: one iteration); result = the values
+            of `ret` afterwards.  `return` / `break` / `continue` in the span, and reads of names that are neither
+            declared nor bound in the span, are refused.  `cells={'flags[index]': Z}` declares an accumulator
+            cell that is assigned through a subscript.
+    'write': the slice assignments `A[lo:hi, ...] = const` of a span, as the predicate "element (i0, ..) of an
+            array with axis lengths (n0, ..) is written" under Python/numpy basic-slice semantics
+            (PyGen.py_in_slice: negative bounds wrap, bounds are clipped, a[-0:] is the whole axis);
+            A.shape[k] / A.ndim are the declared lengths.  Index (non-slice) subscripts and steps are refused.
+    'test': the condition of the `if` statement that mentions a given name (Translator.if_test).
+  Options of every kind: `abstract={'np.iinfo(self.data.dtype).max': ('dtype_max', Z)}` -- the expression with
+  exactly this text is an argument of the declared sort (a library value the translator does not look into);
+  `funcs={'np.sqrt': ('sqrt_', 1)}` -- an UNINTERPRETED real function: an extra argument (sqrt_ : Q -> Q),
+  every call np.sqrt(e) becomes (sqrt_ e), nothing is assumed about it (the tie theorems state what they need);
+  `vec=[names]` -- these tuple-sorted arguments are numpy row vectors (elementwise targets only);
+  a parameter declared with sort None is opaque: it is not an argument and any direct read of it is refused.
 
 SORTS (declared per target; they are the precondition of the tie: "for arguments of these Python types")
     'Z'  int (numpy integers behave the same in the translated arithmetic; isinstance(x, int) and
@@ -25,7 +42,9 @@ SORTS (declared per target; they are the precondition of the tie: "for arguments
     ('tuple', (s1, ..., sn))          -> s1 * ... * sn; a tuple ARGUMENT p is flattened into p_0 ... p_{n-1}
     ('obj', 'Class')                  -> one argument per declared field: self.ixmin -> self_ixmin; an object
                                          RESULT is the tuple of its fields in declared order
-    ('opt', s) / None                 -> option s
+    ('opt', s) / None                 -> option s; `if x is (not) None:` on an option-sorted NAME binds the payload
+                                         in the not-None branch (match x with Some x' => .. | None => ..)
+    ('obj', C) with C declared 'rec'  -> a record read by row['key'] / row[keyname] (table rows, dicts)
     ('list', s)                       -> list s   (only literal np.array([...]) / [...] of fixed length)
     slice(a, b)                       -> the pair (a, b)
   A value of sort Z used where a Q is needed is coerced with inject_Z (Python int -> float promotion).
@@ -42,20 +61,29 @@ EXPRESSIONS
     x ** n for a literal 0 <= n <= 4;  unary - +;
     < <= > >= == != (chained too), `in` / `not in` a literal tuple, `is None` / `is not None`
     and / or / not on bool-sorted operands;  | & on bools (numpy elementwise or/and);  a if c else b
-    min / max (n arguments or one literal tuple), abs, int() on Z, float(), math.floor / math.ceil
-    (Q -> Z: Qfloor / Qceiling), slice(a, b), isinstance(x, T) decided from the declared sort of x
+    min / max (n arguments or one literal tuple), abs, int() (identity on Z; on a float: truncation toward
+    zero = floor for x >= 0, ceiling otherwise), float(), math.floor / math.ceil (Q -> Z: Qfloor / Qceiling),
+    slice(a, b), isinstance(x, T) decided from the declared sort of x (classes may list their Python type
+    names: np.ndarray)
     numpy scalar liftings: np.floor / np.ceil (integer-valued result, kept as Z), np.clip(v, lo, hi) =
     minimum(maximum(v, lo), hi), np.where(c, a, b) = if c then a else b, np.array([...]) -> list,
     list / scalar (elementwise), np.asarray / np.asanyarray / np.atleast_1d of a scalar, x.astype(int)
-    on an integer-valued term, np.isscalar.  np.atleast_1d(scalar) is a ONE-ELEMENT array, represented
-    by its element and marked; elementwise operations keep the mark, v[0] removes it.
+    on an integer-valued term, np.isscalar, np.prod of a tuple with known components, np.ones(<small literal
+    shape>[, dtype=int]) / nested np.array(((..), (..))) -> list of lists, np.array(<elementwise expr>, dtype=int).
+    np.atleast_1d(scalar) is a ONE-ELEMENT array, represented by its element and marked; elementwise
+    operations keep the mark, v[0] removes it.
+    Row vectors (elementwise targets): np.column_stack / np.transpose of a tuple of per-source scalars is ONE ROW
+    of the (N, k) array; + - * / comparisons, np.ceil / np.floor act componentwise with scalar broadcasting;
+    np.any(row_of_bools, axis=1) is the `or` of its components.
     calls of other translated targets (methods of self/other objects, constructors Class(...) /
     cls(...) -> the translated __init__).
 STATEMENTS
     return; assignment to a name / tuple of names (unpacking of known tuples); augmented assignment;
     if / elif / else with early returns, with or without else (the rest of the block is duplicated into
     both branches: continuation-passing, so no merge is ever guessed); `raise Exc(...)` -> Raise Exc;
-    `for v in (<literal tuple>)` unrolled; pass; docstrings; in __init__: self.<field> = e.
+    `for v in (<literal tuple>)` unrolled; pass; docstrings; in __init__: self.<field> = e;
+    `with warnings.catch_warnings():` whose body starts with warnings.simplefilter / filterwarnings('ignore', ..)
+    is value-transparent (an 'ignore' filter cannot raise); any other `with` is refused.
     Falling off the end returns None.  Reading a local that is not bound on the current path gives
     Raise UnboundLocalError (that IS the Python semantics).
 ERRORS
